@@ -50,6 +50,10 @@ pub struct QSpec {
     /// permutation (Lehmer code) of the builder calls offset / author / key filter / include-empty / limit / sort
     #[serde(default)]
     pub order: u16,
+    /// flat queries: start the builder from a shortcut constructor when the filter allows it
+    /// (Query::author / Query::key_exact / Query::key_prefix instead of Query::all)
+    #[serde(default)]
+    pub shortcut: bool,
 }
 
 #[derive(Serialize, Deserialize, Clone, Debug)]
@@ -104,6 +108,7 @@ fn gen_q(rng: &mut Rng, g: &GenCfg, items: &[Ent]) -> QSpec {
         offset: if rng.chance(1, 2) { 0 } else { rng.below(4) },
         limit: if rng.chance(1, 2) { None } else { Some(rng.below(5)) },
         order: if rng.chance(1, 2) { 0 } else { rng.below(720) as u16 },
+        shortcut: rng.chance(1, 4),
     }
 }
 
@@ -284,7 +289,17 @@ fn build_query(q: &QSpec) -> Query {
         apply!(Query::single_latest_per_key(), |b: iroh_docs::store::QueryBuilder<iroh_docs::store::SingleLatestPerKeyQuery>| b.sort_direction(dir)).build()
     } else {
         let sort = if q.by_key { SortBy::KeyAuthor } else { SortBy::AuthorKey };
-        apply!(Query::all(), |b: iroh_docs::store::QueryBuilder<iroh_docs::store::FlatQuery>| b.sort_by(sort, dir)).build()
+        let start = if !q.shortcut {
+            Query::all()
+        } else {
+            match (&q.kf, q.author) {
+                (KeyF::Exact(k), _) => Query::key_exact(k),
+                (KeyF::Prefix(k), _) => Query::key_prefix(k),
+                (KeyF::Any, Some(a)) => Query::author(w.author_id(a)),
+                _ => Query::all(),
+            }
+        };
+        apply!(start, |b: iroh_docs::store::QueryBuilder<iroh_docs::store::FlatQuery>| b.sort_by(sort, dir)).build()
     }
 }
 
